@@ -30,7 +30,7 @@ type VSimFetchCtx struct {
 }
 
 const (
-	VFOk = iota
+	VFOk             = iota
 	VFErr            // Code for every partition of the request (or only PartIdx >= 0)
 	VFDrop           // close the connection
 	VFSilent         // never answer
@@ -45,15 +45,15 @@ type VSimFetchAction struct {
 	Code    KError
 	PartIdx int // VFErr/VFOmitBlock: index into the sorted partition list, -1 = all
 
-	Magic      int8  // 0, 1 or 2: format the data is served in
-	Codec      int8
-	BatchSizes []int // sizes of consecutive batches (cycled); empty = 1 record per batch
-	MaxBatches int   // batches per partition in one answer (0 = 3)
-	AlignTo    int   // > 0: batches start at multiples of AlignTo from the log base (a batch may start before the fetch offset)
-	CutAt      int   // > 0: cut the record set after this many bytes (partial trailing data); applies to the first partition with data
-	HonourMax  bool  // cut the record set at the request's per-partition max bytes (so large records need a bigger fetch)
-	LogAppend  bool
-	DelayMs    int
+	Magic          int8 // 0, 1 or 2: format the data is served in
+	Codec          int8
+	BatchSizes     []int // sizes of consecutive batches (cycled); empty = 1 record per batch
+	MaxBatches     int   // batches per partition in one answer (0 = 3)
+	AlignTo        int   // > 0: batches start at multiples of AlignTo from the log base (a batch may start before the fetch offset)
+	CutAt          int   // > 0: cut the record set after this many bytes (partial trailing data); applies to the first partition with data
+	HonourMax      bool  // cut the record set at the request's per-partition max bytes (so large records need a bigger fetch)
+	LogAppend      bool
+	DelayMs        int
 	ShuffleAborted int64 // != 0: seed used to shuffle the aborted-transaction list
 }
 
